@@ -171,12 +171,15 @@ var checks = []Check{
 		Harnesses: []Harness{
 			{Dir: ".", Func: "H_C18_upload", Quick: P{"maxlen": 5}, Thorough: P{"maxlen": 8, "maxchunk": 4, "maxbuf": 6}},
 			{Dir: ".", Func: "H_C18_download", Quick: P{"maxlen": 5, "steps": 3, "rsr": 1, "onewrite": 1, "maxread": 3, "maxchunk": 3, "maxbuf": 3}, Thorough: P{"maxlen": 5, "steps": 3, "maxread": 3, "maxchunk": 3, "maxbuf": 3}},
+			{Dir: ".", Func: "H_C18_tracked", Quick: P{"maxlen": 5, "cycles": 2, "fixedclock": 1}, Thorough: P{"maxlen": 7, "cycles": 3, "maxchunk": 4, "maxbuf": 5, "fixedclock": 1}, Note: "tracked upload lifecycle: suspend/resume cycles, abort, failed marker update in Close followed by Resume, claim, delete + cleanup"},
+			{Dir: ".", Func: "H_C18_delete", Quick: P{"maxlen": 4, "onewrite": 1}, Thorough: P{"maxlen": 6}, Note: "untracked Delete removes the record and every chunk of that file only"},
 		},
 		Assumptions: append([]string{"the real UploadStream/DownloadStream code runs against in-memory mock collections written in the harness (insert copies the chunk bytes as the codec would; Find returns the file's chunks sorted by n after skip); the collection layer under the bucket is C01's subject",
 			"streams are built in-package with a small upload buffer: the code uses len(s.buffer) only, so the 16 MiB constant is a parameter"}, commonAssumptions...),
 		Bounds: []string{"content of 0..maxlen arbitrary bytes, chunk size 1..maxchunk, upload buffer 1..maxbuf with chunk size <= buffer size (a chunk larger than the buffer makes Write spin forever: outside the domain, noted in DESIGN.md), the content split into three writes at arbitrary cut points",
 			"download: scripts of <= steps operations, each a Read with a buffer of 0..maxread bytes or a Seek with any offset in (-10^6, 10^6) and any whence, compared step by step with an in-memory reference reader",
-			"outside: tracked uploads (markers, Suspend/Resume/Abort), Delete, sizes beyond the bound"},
+			"lifecycle: tracked bucket with a mock markers collection; <= cycles rounds of Write(part) / Suspend / new stream / Resume at arbitrary cut points (incl. before the first byte), then the rest of the content and one of: Close + ClaimUpload (+ Delete + Cleanup), Abort, or Close with a failing marker update followed by a Resume attempt from a new stream (continue if accepted, Cleanup if refused); after a completed upload the record, the chunks and a full download through the real DownloadStream equal the content; offsets reported by Suspend/Resume equal the bytes stored",
+			"outside: concurrent use of one stream, Cleanup races with ClaimUpload, sizes beyond the bound"},
 	},
 	{
 		Property: "C16",
@@ -204,14 +207,14 @@ var checks = []Check{
 	{
 		Property: "C09",
 		Harnesses: []Harness{
-			{Dir: ".", Func: "H_C09_seq", Quick: P{"maxevents": 2, "fixedclock": 1}, Thorough: P{"maxevents": 3, "fixedclock": 1}},
+			{Dir: ".", Func: "H_C09_seq", Quick: P{"maxevents": 3, "fixedclock": 1}, Thorough: P{"maxevents": 4, "fixedclock": 1}},
 			{Dir: ".", Func: "H_C09_lost", Quick: P{"fixedclock": 1}, Thorough: P{"fixedclock": 1}},
 			{Dir: ".", Func: "H_C09_conc", Quick: P{"maxwrites": 1, "preempt": 2, "fixedclock": 1}, Thorough: P{"maxwrites": 2, "preempt": 2, "fixedclock": 1}, Conc: true, ModelOnly: true},
 		},
 		Assumptions: schedAssumptions,
-		Bounds: []string{"sequential: <= maxevents committed events (inserts and collection drops over 2 databases x 2 collections), stream scope client/database/collection, start position at any event (resume token) or before everything (start time 0); expected sequence = scope-filtered suffix, invalidate after a drop of the watched namespace; lost position after retention removed the stream's position",
+		Bounds: []string{"sequential: <= maxevents committed events (inserts and collection drops over 2 databases x 2 collections), stream scope client/database/collection, start position at any event given as resumeAfter token, startAfter token or startAt cluster time (incl. a time after the last event), or before everything (start time 0); expected sequence = scope-filtered suffix, invalidate after a drop of the watched namespace; lost position after retention removed the stream's position",
 			"concurrent: one consumer blocked in Next, one writer committing 1..maxwrites events then optionally closing the stream or cancelling the consumer's context; every interleaving within the pre-emption bound; a consumer left blocked with an undelivered event shows up as deadlock",
-			"outside: startAfter (same code path as resumeAfter), pipelines (rejected by lungo), wall-clock latency"},
+			"outside: stream pipelines, wall-clock latency"},
 	},
 	{
 		Property: "C05",
